@@ -292,8 +292,9 @@ def run(chk):
     w = 4
     all_types = '{"int", "text", "null", "float", "nan", "blob", "vec", "vec2", "bool", "huge", "uuid", "date", "ts"}'
     jobs = {
-        # every sentence with <= 1 feature, all 26 frames, all nesting shapes
-        "bfs": dict(module="MC_Grammar.tla", cfg=_cfg("Gen_Grammar_bfs.cfg", DeepN="{64, 1000, 5000, 20000}" if thorough else "{64, 1000, 5000}"), timeout=1500, workers=w),
+        # every sentence with <= 1 feature (thorough: <= 2 features, ~1.1 M sentences, sampled), all 26 frames, all nesting shapes
+        "bfs": dict(module="MC_Grammar.tla", cfg=_cfg("Gen_Grammar_bfs.cfg", Budget=2 if thorough else 1, DeepN="{64, 1000, 5000, 20000}" if thorough else "{64, 1000, 5000}"),
+                    timeout=3400 if thorough else 1500, workers=8 if thorough else w),
         # <= 1 feature + <= 1 boundary value: expression / PRAGMA / SET frames (quick), every frame (thorough)
         "val": dict(module="MC_Grammar.tla", cfg=_cfg("Gen_Grammar_val.cfg", Starts='{"<Stmt>"}') if thorough else os.path.join(vlib.SPEC, "Gen_Grammar_val.cfg"),
                     timeout=3000 if thorough else 900, workers=8 if thorough else w),
@@ -307,9 +308,6 @@ def run(chk):
         "apisim": dict(module="MC_ApiCalls.tla", cfg=_cfg("Gen_ApiCalls_sim.cfg", MaxCalls=10), timeout=900, workers=1,
                        simulate="num=%d" % (4000 if thorough else 400), seed=chk.seed, extra=["-depth", "14"]),
     }
-    if thorough:
-        # every sentence with <= 2 features of the two expression frames (all pairs of operators / functions / literals)
-        jobs["bfs2"] = dict(module="MC_Grammar.tla", cfg=_cfg("Gen_Grammar_val.cfg", Budget=2, VBudget=0, Starts='{"<QWhere>", "<QExpr>"}'), timeout=3000, workers=8)
     gen = _tlc_jobs(jobs); chk.mark("tlc")
 
     # ------------------------------------------------------------------ cases
@@ -349,7 +347,7 @@ def run(chk):
     by = collections.defaultdict(list)
     for c in cases:
         by[c["src"]].append(c)
-    lim = dict(bfs=60000, bfs2=40000, val=40000, mut=30000, sim=10 ** 6) if thorough else dict(bfs=9000, bfs2=0, val=6000, mut=3500, sim=10 ** 6)
+    lim = dict(bfs=80000, bfs2=0, val=40000, mut=30000, sim=10 ** 6) if thorough else dict(bfs=9000, bfs2=0, val=6000, mut=3500, sim=10 ** 6)
     chosen = []
     chosen += take(by["bfs"], lim["bfs"], lambda c: (c["frame"], c["trail"][-1][0] if c["trail"] else "-"))
     chosen += take(by["bfs2"], lim["bfs2"], lambda c: (c["frame"], c["trail"][-1][0] if c["trail"] else "-"))
